@@ -11,7 +11,7 @@ import subprocess
 import sys
 
 VERIF = os.path.dirname(os.path.dirname(os.path.abspath(__file__)))
-WT = "/tmp/verif-seeded-wt"
+WT = os.environ.get("VERIF_SEEDED_WT", "/tmp/verif-seeded-wt")
 
 
 def sh(*a, **k):
@@ -39,7 +39,7 @@ def main():
             if a.returncode:
                 print(f"{n}: PATCH DOES NOT APPLY ANY MORE {a.stderr.strip()[:160]}", flush=True)
                 continue
-            env = dict(os.environ, VERIF_REPO=WT, VERIF_EVIDENCE_DIR="/tmp/verif-seeded-evidence")
+            env = dict(os.environ, VERIF_REPO=WT, VERIF_EVIDENCE_DIR=WT + "-evidence")
             p = sh("/venv/bin/python", os.path.join(VERIF, "harness", "check.py"), prop, "--tier", "quick", env=env, timeout=3000)
             lines = [ln for ln in p.stdout.splitlines() if ln.startswith(("VIOLATION", "OK", "MACH", "  C", "  ["))][:2]
             ok = p.returncode == 1
@@ -47,7 +47,7 @@ def main():
             print(f"{n}: {prop} exit={p.returncode} {'detected' if ok else 'MISSED'} {[x[:110] for x in lines]}", flush=True)
     finally:
         sh("git", "-C", "/repo", "worktree", "remove", "--force", WT)
-        sh("rm", "-rf", "/tmp/verif-seeded-evidence")
+        sh("rm", "-rf", WT + "-evidence")
     print(f"{len(names)} seeded changes, {missed} missed")
     return 1 if missed else 0
 
